@@ -248,49 +248,49 @@ Definition sp_known (code : N) (vs : sig) (e : endian) (b : bytes) (pos : N) (a 
   | _, _ => None
   end.
 
+(* one element of the field array at [pos]: 8-aligned, code byte, signature of exactly one complete type, value *)
+Definition sp_field (e : endian) (b : bytes) (pos : N) (a : sfields) : option (sfields * N) :=
+  match sp_align b pos 8 with
+  | Some p =>
+      match sp_byte b p with
+      | Some (code, p1) =>
+          match sp_string false e b p1 with
+          | Some (sg, p2) =>
+              match parse_sig sg with
+              | Some vs =>
+                  match vs with
+                  | SUnit => None
+                  | _ =>
+                      if lbeq (show vs) sg then       (* a single complete type *)
+                        if code =? 0 then None        (* 0 is INVALID *)
+                        else if code <=? 9 then sp_known code vs e b p2 a
+                        else                           (* unknown header field: ignored, whatever its (valid) value *)
+                          match sp_value vs field_value_depths e b p2 with
+                          | Some p3 =>
+                              Some ({| s_path := s_path a; s_iface := s_iface a; s_member := s_member a; s_errname := s_errname a;
+                                       s_reply := s_reply a; s_dest := s_dest a; s_sender := s_sender a; s_sig := s_sig a;
+                                       s_fds := s_fds a; s_unk := s_unk a + 1 |}, p3)
+                          | None => None
+                          end
+                      else None
+                  end
+              | None => None
+              end
+          | None => None
+          end
+      | None => None
+      end
+  | None => None
+  end.
+
 Fixpoint sp_fields (fuel : nat) (e : endian) (b : bytes) (endp pos : N) (a : sfields) : option sfields :=
   if pos =? endp then Some a
   else
     match fuel with
     | O => None
     | S f =>
-        match sp_align b pos 8 with
-        | Some p =>
-            match sp_byte b p with
-            | Some (code, p1) =>
-                match sp_string false e b p1 with
-                | Some (sg, p2) =>
-                    match parse_sig sg with
-                    | Some vs =>
-                        match vs with
-                        | SUnit => None
-                        | _ =>
-                            if lbeq (show vs) sg then       (* a single complete type *)
-                              if code =? 0 then None        (* 0 is INVALID *)
-                              else if code <=? 9 then
-                                match sp_known code vs e b p2 a with
-                                | Some (a', p3) => if p3 <=? endp then sp_fields f e b endp p3 a' else None
-                                | None => None
-                                end
-                              else                           (* unknown header field: ignored *)
-                                match sp_value vs field_value_depths e b p2 with
-                                | Some p3 =>
-                                    if p3 <=? endp
-                                    then sp_fields f e b endp p3
-                                           {| s_path := s_path a; s_iface := s_iface a; s_member := s_member a; s_errname := s_errname a;
-                                              s_reply := s_reply a; s_dest := s_dest a; s_sender := s_sender a; s_sig := s_sig a;
-                                              s_fds := s_fds a; s_unk := s_unk a + 1 |}
-                                    else None
-                                | None => None
-                                end
-                            else None
-                        end
-                    | None => None
-                    end
-                | None => None
-                end
-            | None => None
-            end
+        match sp_field e b pos a with
+        | Some (a', p3) => if p3 <=? endp then sp_fields f e b endp p3 a' else None
         | None => None
         end
     end.
